@@ -124,15 +124,15 @@ MUTANTS = [
     ("c17-unix-https-check-reverted", "C17", J, "        if schema not in (\"http\", \"https\") or (use_unix and schema != \"http\"):", "        if schema not in (\"http\", \"https\"):", "unix+https accepted again with a caller-supplied transport"),
     ("c03-late-conversion-check-reverted", "C03", S, "            jsonrpclib.jdumps(result, self.encoding)\n            return result", "            return result", "results refused by the encoder collapse the reply again"),
     ("c02-nonfinite-id-check-reverted", "C02", S, "    if not _is_finite(rpcid):", "    if False:", "ids beyond the double range echoed as Infinity again"),
-    ("c02-nonfinite-id-check-top-level-only", "C02", S, "    elif isinstance(value, (utils.ListType, utils.TupleType)):\n        return all(_is_finite(item) for item in value)", "    elif False:\n        return True", "numerals beyond the double range nested in a structured id are echoed again"),
+    ("c02-nonfinite-id-check-top-level-only", "C02", S, "            to_check.extend(item)\n        elif isinstance(item, utils.DictType):\n            to_check.extend(item.values())", "            pass", "numerals beyond the double range nested in a structured id are echoed again"),
     ("c10-ctor-overflow-reverted", "C10", T, "        except OverflowError:\n            # Infinite value: clamp it like any other out-of-range value\n            min_threads = max_threads if min_threads > 0 else 0\n", "", "an infinite min_threads raises OverflowError again"),
     ("c10-error-report-guard-reverted", "C10", T, "                        except Exception:\n                            # The error can't even be reported (e.g. odd\n                            # callable object): the thread must go on\n                            pass\n", "                        finally:\n                            pass\n", "a failing dict-backed callable kills its worker again"),
     ("c05-noncallable-attribute-reverted", "C05", S, "                        if not callable(func):\n                            # A public attribute is not a method\n                            func = None\n", "                        pass\n", "data attributes answered -32602 again"),
     ("c01-self-keyword-reverted", "C01", J, "    def __call__(*args, **kwargs):\n        \"\"\"\n        Sends an RPC request and returns the unmarshalled result\n        \"\"\"\n        # \"self\" can be the name of a keyword argument of the remote method\n        self, args = args[0], args[1:]\n", "    def __call__(self, *args, **kwargs):\n        \"\"\"\n        Sends an RPC request and returns the unmarshalled result\n        \"\"\"\n", "proxy.f(self=1) raises TypeError again"),
-    ("c07-alias-ignored-reverted", "C07", K, "            if local_class is obj.__class__:\n                json_class = local_name\n                break\n", "            pass\n", "local classes registered under a custom name are dumped with their own name again"),
+    ("c07-alias-ignored-reverted", "C07", K, "            if local_class is clazz:\n                json_class = local_name\n                break\n", "            pass\n", "local classes registered under a custom name are dumped with their own name again"),
     ("c07-enum-nonscalar-fallback-reverted", "C07", K, "                if dump(member.value) == params[0]:", "                if False:", "enum members with tuple values cannot be loaded again"),
     ("c06-multicall-single-error-reverted", "C06", J, "        elif isinstance(responses, utils.DictType):\n            # The server answered the whole batch with a single object: this\n            # is the way errors concerning the batch itself are reported\n            check_for_errors(responses)\n", "", "MultiCall raises KeyError/TypeError for a whole-batch error object again"),
-    ("c14-fault-forced-id-zero-reverted", "C14", J, "        if rpcid is not None and rpcid != \"\":\n            # 0 is a valid request ID\n            self.rpcid = rpcid\n\n        return dumps(", "        if rpcid:\n            self.rpcid = rpcid\n\n        return dumps(", "Fault.response(rpcid=0) answers id null again"),
+    ("c14-fault-forced-id-zero-reverted", "C14", J, "        if rpcid is None or rpcid == \"\":\n            # No forced ID (0 is a valid one): use the one of the fault.\n", "        if not rpcid:\n            # No forced ID: use the one of the fault.\n", "Fault.response(rpcid=0) answers id null again"),
     ("c07-string-slots-reverted", "C07", K, "        if isinstance(slots, utils.STRING_TYPES):\n            # A single slot can be declared with its name only\n            slots = (slots,)\n", "", "__slots__ = 'value' iterated by characters again"),
     ("c17-per-chunk-decode-reverted", "C17", S, "                chunks.append(raw_chunk)\n                size_remaining -= len(raw_chunk)\n\n            # Decode the whole body at once: a multi-byte character can be\n            # split between two chunks\n            data = utils.from_bytes(b\"\".join(chunks))",
      "                chunks.append(utils.from_bytes(raw_chunk))\n                size_remaining -= len(raw_chunk)\n            data = \"\".join(chunks)", "per-chunk decoding is back"),
